@@ -22,7 +22,7 @@
  "name": "file_set_size2_buffer",
  "props": ["C09"],
  "level": "P",
- "tier": "wip",
+ "tier": "quick",
  "harness": "h_set_size2_buffer",
  "enforce": ["ext2fs_file_set_size2"],
  "replace": ["ext2fs_file_zero_past_offset", "ext2fs_file_flush"],
